@@ -595,7 +595,10 @@ class XsdAnyElement(XsdWildcard, ParticleMixin,
                 return other.is_overlap(self)
             return False
 
-        if self.not_namespace:
+        if not (self.namespace or self.not_namespace) or \
+                not (other.namespace or other.not_namespace):
+            return False  # an empty namespace list admits no name
+        elif self.not_namespace:
             if other.not_namespace:
                 return True
             elif '##any' in other.namespace:
